@@ -276,6 +276,14 @@ def main(chk):
             _, y = nsc(carry_l[1], xj1)
             want = na(lin_of(nsc.dense_i, xs1) + lin_of(nsc.dense_h, h0) + (h0 if res else 0.0))
             trials[f'nnx.SimpleCell(residual={res})'] = ((np.asarray(y),), (want,))
+          for rg in (True, False):      # MGU: h' = (1 - f) * act(W_in x + b + [f *] (W_hn h [+ b])) + f * h
+            mcell = nn.MGUCell(H, gate_fn=jg, activation_fn=ja, reset_gate=rg)
+            mv = mcell.init(jax.random.key(5), carry_l[1], xj1)
+            _, y = mcell.apply(mv, carry_l[1], xj1)
+            pp = mv['params']
+            f_ = ng(dense(pp, 'if', xs1) + dense(pp, 'hf', h0))
+            hn = dense(pp, 'hn', h0) * (f_ if rg else 1.0)
+            trials[f'linen.MGUCell(reset_gate={rg})'] = ((np.asarray(y),), ((1 - f_) * na(dense(pp, 'in', xs1) + hn) + f_ * h0,))
           gcell = nn.GRUCell(H, gate_fn=jg, activation_fn=ja)
           gv = gcell.init(jax.random.key(5), carry_l[1], xj1)
           _, y = gcell.apply(gv, carry_l[1], xj1)
@@ -290,6 +298,27 @@ def main(chk):
         if not all(np.allclose(g_, w_, rtol=1e-4, atol=1e-5) for g_, w_ in zip(got, want)):
           chk.violation(key, f'{cname}(activation_fn={an}, gate_fn={gn}): one step differs from the documented recurrence '
                              f'(max abs err {max(float(np.abs(g_ - w_).max()) for g_, w_ in zip(got, want)):.3g})', {})
+
+  # long sequences whose lengths are stored in a narrow integer type: reverse / keep_order / Bidirectional re-index time exactly as with int32
+  Tl = 100
+  xl = jnp.asarray(rs.randn(3, Tl, D), jnp.float32)
+  lens = np.asarray([100, 37, 64])
+  for ldt in (np.int8, np.uint8, np.int16):
+    for flags in ({'reverse': True, 'keep_order': True}, {'reverse': True, 'keep_order': False}):
+      key = f'C13:rnn:long-sequence:seq_lengths-dtype={np.dtype(ldt).name}:' + ','.join(f'{k}={v}' for k, v in flags.items())
+      chk.count(key)
+      try:
+        rnn = nn.RNN(nn.GRUCell(H), return_carry=True, **flags)
+        vl = rnn.init(jax.random.key(1), xl)
+        c_ref, y_ref = rnn.apply(vl, xl, seq_lengths=jnp.asarray(lens, jnp.int32))
+        c_got, y_got = rnn.apply(vl, xl, seq_lengths=jnp.asarray(lens.astype(ldt)))
+        bi = nn.Bidirectional(nn.RNN(nn.GRUCell(H)), nn.RNN(nn.GRUCell(H)))
+        vb = bi.init(jax.random.key(2), xl)
+        if not np.array_equal(np.asarray(y_got), np.asarray(y_ref)) or not np.array_equal(np.asarray(c_got), np.asarray(c_ref)) or \
+           not np.array_equal(np.asarray(bi.apply(vb, xl, seq_lengths=jnp.asarray(lens.astype(ldt)))), np.asarray(bi.apply(vb, xl, seq_lengths=jnp.asarray(lens, jnp.int32)))):
+          chk.violation(key, f'T = {Tl}, lengths {lens.tolist()} given as {np.dtype(ldt).name}: outputs / final carry differ from the same lengths given as int32', {})
+      except Exception as e:
+        chk.violation(key, f'raised {type(e).__name__}: {str(e)[:160]}', {})
 
   # ------------------------------------------------------------------------------------------------ attention
   ra = tlc.require_ok(tlc.run('SeqIndex', 'SeqIndex_attn.cfg', workers=1, timeout=900), 'SeqIndex attn')
